@@ -478,7 +478,13 @@ func genNumerals(w *lib.Writer, r *lib.Rand, tier string) {
 			longs = append(longs, strings.Repeat("0", r.Range(1, 900))+"7"+randDigits(r, n)+"e-"+strconv.Itoa(n))
 		}
 	}
-	for _, s := range longs {
+	for i, s := range longs {
+		if tier != "thorough" && len(s) > 5000 {
+			// 12000-digit numerals cost the evaluator ~10 s and 600 MB each (exact 40000-bit arithmetic):
+			// the quick tier reads each through one reader only (all three end in parseNumber)
+			runCase(w, in{Kind: "num", Rd: 2 - i%2, S: hx(s)})
+			continue
+		}
 		numCases(w, []byte(s))
 	}
 	// structured numerals: well-formed, decorated, and mutated
